@@ -209,7 +209,7 @@ def c06(tier, seed):
 # ------------------------------------------------------------------------------------------ overlay
 
 def ovl_cases(universe, nlayers, props_, seed, ncfg=None, k1_ops=None, k2=0, k3=0, removal_first=False, max_nodes=None, layer_kind='mem', k2_first=None, recreate=0, then_parent=False, tag='C09',
-              transfers=0, lower_markers=False):
+              transfers=0, lower_markers=False, recreate_rm=False):
     """cases for overlay.run_history_case: per layer configuration a list of histories"""
     from . import overlay
     u = UNIVERSES[universe]()
@@ -247,6 +247,10 @@ def ovl_cases(universe, nlayers, props_, seed, ncfg=None, k1_ops=None, k2=0, k3=
                 rm_ = 'remove_file' if kinds_[v1] == 'f' else 'remove_dir_all'
                 for mk in ('create_dir', 'write'):
                     hs.append([(rm_, v1), (mk, v1)])
+                    if recreate_rm:
+                        # ... and remove the re-created entry again: whatever a lower layer holds at that path stays hidden
+                        # (the re-created entry may have the other type than the lower-layer original)
+                        hs.append([(rm_, v1), (mk, v1), ('remove_file' if mk == 'write' else 'remove_dir', v1)])
                     if recreate > 1:
                         rm2 = 'remove_file' if mk == 'write' else 'remove_dir'
                         hs.append([(rm_, v1), (mk, v1), (rm2, v1), ('write' if mk == 'create_dir' else 'create_dir', v1)])
@@ -341,7 +345,7 @@ def run_overlay(pid, tier, seed, plan, extra_props=(), more=()):
         desc.append('%s x %d layers: %d layer configurations, %d histories' % (universe, nlayers, len(cs), sum(len(c['histories']) for c in cs)))
     cases.sort(key=lambda c: -len(c['histories']))
     ck.bounds = {'plan': desc, 'file_bytes': '0..2 symbolic per file and layer', 'written_bytes': '1 symbolic',
-                 'history_length': 'k<=%d' % (3 if any(kw.get('k3') for _, _, kw in plan) else 2)}
+                 'history_length': 'k<=%d' % (4 if any(kw.get('recreate', 0) > 1 for _, _, kw in plan) else 3 if any(kw.get('k3') or kw.get('recreate_rm') for _, _, kw in plan) else 2)}
     ck.add(run_cases(prog, overlay.run_history_case, cases), 'overlay bounded histories from symbolic initial layers')
     for fn_, cs_, desc_ in more:
         ck.add(run_cases(prog, fn_, cs_), desc_)
@@ -354,8 +358,9 @@ def run_overlay(pid, tier, seed, plan, extra_props=(), more=()):
 def c09(tier, seed):
     from . import overlay
     if tier == 'quick':
-        plan = [('UO3', 2, dict(k1_ops=overlay.HIST_OPS + overlay.OBS_OPS, k2=12, recreate=1)),
+        plan = [('UO3', 2, dict(k1_ops=overlay.HIST_OPS + overlay.OBS_OPS, k2=12, recreate=1, recreate_rm=True)),
                 ('UO3', 3, dict(ncfg=60, k1_ops=overlay.HIST_OPS + ['read_dir'], recreate=1)),
+                ('UOW', 2, dict(ncfg=40, k1_ops=['remove_file', 'remove_dir_all', 'write', 'read_dir'])),
                 ('UO3', 2, dict(ncfg=40, k1_ops=overlay.HIST_OPS + ['read_dir'], recreate=1, layer_kind='memsub')),
                 ('USYM', 2, dict(ncfg=30, k1_ops=overlay.HIST_OPS + overlay.OBS_OPS, k2=4)),
                 ('UO4', 2, dict(ncfg=50, k1_ops=['write', 'create_dir', 'append', 'create_dir_all', 'remove_dir']))]
@@ -367,6 +372,7 @@ def c09(tier, seed):
                 ('UO3', 3, dict(ncfg=400, k1_ops=overlay.HIST_OPS + overlay.OBS_OPS, k2=20)),
                 ('UO4', 2, dict(ncfg=300, k1_ops=overlay.HIST_OPS, k2=20)),
                 ('UO3', 1, dict(k1_ops=overlay.HIST_OPS + overlay.OBS_OPS, k2=30)),
+                ('UOW', 2, dict(ncfg=300, k1_ops=overlay.HIST_OPS + ['read_dir'], k2=10)),
                 ('UO3', 4, dict(ncfg=150, k1_ops=overlay.HIST_OPS))]
     return run_overlay('C09', tier, seed, plan)
 
@@ -376,7 +382,7 @@ def c10(tier, seed):
     from . import overlay
     rm = ['remove_file', 'remove_dir', 'remove_dir_all']
     if tier == 'quick':
-        plan = [('UO3', 2, dict(k1_ops=rm, k2=10, k3=4, removal_first=True, recreate=1)),
+        plan = [('UO3', 2, dict(k1_ops=rm, k2=10, k3=4, removal_first=True, recreate=1, recreate_rm=True)),
                 ('UOW', 2, dict(ncfg=60, k1_ops=rm, k2=8, removal_first=True)),
                 ('UO3', 3, dict(ncfg=40, k1_ops=rm, k2=6, removal_first=True, recreate=1)),
                 ('USYM', 2, dict(ncfg=30, k1_ops=rm, k2=6, removal_first=True, recreate=1)),
@@ -934,7 +940,7 @@ def c02(tier, seed):
     prog = load_program()
     ck.selftest = quick_selftest(prog, seed, 40 if tier == 'quick' else 400, kinds=['phys', 'altphys', 'ovlphys', 'mem'])
     u = UNIVERSES['U5']()
-    ops = [(op, v) for op in ALL_OPS + ['hopen', 'create_hold', 'append_hold', 'rewrite_then_remove', 'recreate_dir_cycle'] for v in u.vars]
+    ops = [(op, v) for op in ALL_OPS + ['hopen', 'create_hold', 'append_hold', 'create_seek_hold', 'rewrite_then_remove', 'recreate_dir_cycle'] for v in u.vars]
     cases = [{'universe': 'U5', 'shape': sh, 'ops': ops} for sh in shapes(u)]
     ck.add(run_cases(prog, mod.run_diff_case, cases), 'every primitive/observer/composite on every path from every well-formed tree, MemoryFS vs PhysicalFS@OSM in lock-step')
     ut = UNIVERSES['UT']()
